@@ -265,7 +265,12 @@ class Indicator(_DomainObject):
             except AttributeError:
                 pat_ver = '2.1'
 
-            errors = run_validator(self.get('pattern'), pat_ver)
+            try:
+                errors = run_validator(self.get('pattern'), pat_ver)
+            except Exception as exc:
+                # A failure inside the pattern validator is a refusal of the
+                # pattern, not an internal error of this library.
+                errors = [exc]
             if errors:
                 raise InvalidValueError(self.__class__, 'pattern', str(errors[0]))
 
